@@ -147,6 +147,11 @@ class Ctx:
         self.repo = REPO
         self.t0 = time.time()
         self.work = BUILD / (pid + "-replay" if replay else pid)   # a replay keeps the run's files
+        # two runs of the same check share this directory: the second one waits for the first
+        BUILD.mkdir(exist_ok=True)
+        self._runlock = open(BUILD / (self.work.name + ".runlock"), "w")
+        fcntl.flock(self._runlock, fcntl.LOCK_EX)
+        self.t0 = time.time()
         if self.work.exists():
             shutil.rmtree(self.work)
         self.work.mkdir(parents=True)
